@@ -8,12 +8,12 @@ V(r)   == [nil |-> FALSE, r |-> r, ids |-> <<>>]
 NilV   == [nil |-> TRUE, r |-> 0, ids |-> <<>>]
 Ids(q) == [nil |-> FALSE, r |-> 0, ids |-> q]
 
-R1(id, o, m) == [type |-> "t1", id |-> id, vals |-> [a |-> V(1), n |-> NilV, o |-> Ids(o), m |-> Ids(m)]]
+R1(id, o, m) == [type |-> "t1", id |-> id, vals |-> [a |-> V(1), n |-> NilV, o |-> Ids(o), m |-> Ids(m), o2 |-> Ids(<<>>), m2 |-> Ids(<<"w">>)]]
 R2(id, p)    == [type |-> "t2", id |-> id, vals |-> [b |-> V(2), p |-> Ids(p)]]
 Pool == { R1("x", <<>>, <<>>), R1("y", <<"u">>, <<"v", "u">>), R2("u", <<"x">>), R2("x", <<>>) }
 
-FieldSels == { <<>>, <<"a">>, <<"a", "o">>, <<"n", "m", "o", "a">>, <<"id", "zz", "a">>, <<"m", "m">> }
-DataSels  == { <<>>, <<"o">>, <<"m", "o">>, <<"zz">> }
+FieldSels == { <<>>, <<"a">>, <<"a", "o">>, <<"n", "m", "o", "a", "m2", "o2">>, <<"id", "zz", "a">>, <<"m", "m", "m2">> }
+DataSels  == { <<>>, <<"o">>, <<"m", "o">>, <<"zz">>, <<"m2">> }
 
 VARIABLES doc, st, steps
 vars == <<doc, st, steps>>
